@@ -127,7 +127,7 @@ def run(ctx, model):
         n_w = 0
         # empty connection
         f0 = NArr([sp.Symbol("f0", positive=True), sp.Symbol("f1", positive=True)])
-        me = Obj(Mini(g), methods, {"_elements": []})
+        me = _construct(g, methods, [])
         try:
             out = Mini(g).call_function(fi.node, {"self": me, "f": f0})
             if not all(_eq(x, 0) for x in out):
@@ -141,7 +141,7 @@ def run(ctx, model):
             vals = _materialise(rows)
             kids = [_child(k, v) for k, v in zip(kinds, vals)]
             f = NArr([sp.Symbol(f"f{j}", positive=True) for j in range(m)])
-            me = Obj(Mini(g), methods, {"_elements": kids})
+            me = _construct(g, methods, kids)
             try:
                 out = Mini(g).call_function(fi.node, {"self": me, "f": f})
                 got: Any = list(out)
@@ -175,8 +175,46 @@ def run(ctx, model):
             if not ok and not any(p[0] == f"{cls}._impedance" and p[1] == "law" for p in problems):
                 pretty = [["0" if v == 0 else "inf" if (isinstance(v, float) and math.isinf(v)) else ("tiny" if v == EPS else "Z") for v in r] for r in rows]
                 problems.append((f"{cls}._impedance", "law", f"children {list(zip(kinds, pretty))}: result {got if isinstance(got, str) else [str(x)[:40] for x in got]} instead of {want if isinstance(want, str) else [str(x)[:40] for x in want]}"))
+        # the result follows the current children: evaluate, edit the connection through its own methods, evaluate again
+        za, zb, zc = (sp.Symbol(n_, positive=True) for n_ in ("za", "zb", "zc"))
+        combine = (lambda zs: sum(zs, 0)) if law == "series" else (lambda zs: 1 / sum((1 / z for z in zs), 0))
+        for edit, after in (("append", [za, zb, zc]), ("insert", [zc, za, zb]), ("remove", [zb]), ("pop", [za]), ("extend", [za, zb, zc]), ("the list it was constructed from", None)):
+            if after is not None and not any(edit in lvl for lvl in methods):
+                continue
+            n_w += 1
+            ka, kb, kc = _child("Element", [za]), _child("Connection", [zb]), _child("Container", [zc])
+            z_of = {id(ka): za, id(kb): zb, id(kc): zc}
+            items = [ka, kb]
+            me = _construct(g, methods, items, copy=False)
+            f1 = NArr([sp.Symbol("f0", positive=True)])
+            try:
+                mi = Mini(g)
+                first = list(mi.call_function(fi.node, {"self": me, "f": f1}))
+                if after is None:
+                    # the constructor may keep the caller's list: whatever iteration shows afterwards is what must be evaluated
+                    items.append(kc)
+                    after = [z_of[id(k)] for k in me._elements]
+                else:
+                    fn_, lvl_ = me._mi_find(edit)
+                    mi.call_bound(fn_, me, {"append": (kc,), "insert": (0, kc), "remove": (ka,), "pop": (1,), "extend": ([kc],)}[edit], {}, level=lvl_)
+                second: Any = list(mi.call_function(fi.node, {"self": me, "f": f1}))
+            except InterpRaise as e:
+                first, second, after = [combine([za, zb])], e.kind, (after or [za, zb])
+            if not (_eq(first[0], combine([za, zb])) and isinstance(second, list) and _eq(second[0], combine(after))) and not any(p[1] == "stale" and p[0].startswith(cls) for p in problems):
+                problems.append((f"{cls}._impedance", "stale", f"after a change through {edit} on a connection that has been evaluated once, the impedance is {second if isinstance(second, str) else str(second[0])[:60]} instead of the combination of its current children {str(combine(after))[:60]}"))
         counts[cls] = n_w
     return problems, counts
+
+
+def _construct(g, methods, kids, copy: bool = True):
+    """The connection object: built by the interpreted constructor when there is one, so that whatever state it sets up exists."""
+    me = Obj(Mini(g), methods, {})
+    fn, lvl = me._mi_find("__init__")
+    if fn is None:
+        object.__setattr__(me, "_elements", list(kids))
+        return me
+    Mini(g).call_bound(fn, me, (list(kids) if copy else kids,), {}, level=lvl)
+    return me
 
 
 def run_evaluator(ctx, model) -> Tuple[List[str], int]:
